@@ -28,11 +28,13 @@ def record(mol, grid, window, pka_text, max_groups=None):
     ch = mol.get_charge_profile(conformation="AVR", grid=g)
     groups = [x for x in conf.groups if x.titratable]
     phs = [p for p, _ in prof]
+    # group charges are evaluated at the pH the charge profile itself reports for each row
+    cphs = [row[0] for row in ch] if ch is not None and len(ch) == len(phs) else phs
     grp = []
     for x in groups:
         grp.append({"lab": x.label, "q": r4(x.charge), "pkf": micro(x.pka_value), "pkm": micro(x.model_pka),
-                    "qu": [r4(x.calculate_charge(params, ph=p, state="unfolded")) for p in phs],
-                    "qf": [r4(x.calculate_charge(params, ph=p, state="folded")) for p in phs],
+                    "qu": [r4(x.calculate_charge(params, ph=p, state="unfolded")) for p in cphs],
+                    "qf": [r4(x.calculate_charge(params, ph=p, state="folded")) for p in cphs],
                     "dg": [r4(x.calculate_folding_energy(params, ph=p, reference="neutral")) for p in phs],
                     "hf": r4(x.calculate_charge(params, ph=x.pka_value, state="folded")),
                     "hu": r4(x.calculate_charge(params, ph=x.model_pka, state="unfolded"))})
